@@ -1,0 +1,60 @@
+//! Verification hooks (only compiled with `--cfg rustpython_parser_verif`).
+//!
+//! Pure counters: how often each grammar production was reduced and how many
+//! logical steps the scanner, the soft keyword look-ahead and the string
+//! parser performed. They never influence the result of lexing or parsing.
+use std::sync::atomic::{AtomicU32, AtomicU64, Ordering};
+
+pub const N_REDUCE: usize = 1024;
+pub const N_STEP: usize = 8;
+pub const STEP_LEXER_CHAR: usize = 0;
+pub const STEP_LEXER_LOOP: usize = 1;
+pub const STEP_SOFT_KEYWORD_PEEK: usize = 2;
+pub const STEP_STRING_CHAR: usize = 3;
+pub const STEP_REDUCE: usize = 4;
+
+#[allow(clippy::declare_interior_mutable_const)]
+const Z32: AtomicU32 = AtomicU32::new(0);
+#[allow(clippy::declare_interior_mutable_const)]
+const Z64: AtomicU64 = AtomicU64::new(0);
+static REDUCE_HITS: [AtomicU32; N_REDUCE] = [Z32; N_REDUCE];
+static STEPS: [AtomicU64; N_STEP] = [Z64; N_STEP];
+
+#[inline]
+pub(crate) fn reduce(action: i16) {
+    if let Some(slot) = REDUCE_HITS.get(action as usize) {
+        slot.fetch_add(1, Ordering::Relaxed);
+    }
+    STEPS[STEP_REDUCE].fetch_add(1, Ordering::Relaxed);
+}
+
+#[inline]
+pub(crate) fn step(kind: usize) {
+    STEPS[kind].fetch_add(1, Ordering::Relaxed);
+}
+
+/// Current value of the step counters.
+pub fn steps() -> [u64; N_STEP] {
+    let mut out = [0; N_STEP];
+    for (o, s) in out.iter_mut().zip(STEPS.iter()) {
+        *o = s.load(Ordering::Relaxed);
+    }
+    out
+}
+
+/// Hit count per production index of the generated parser.
+pub fn reduce_hits() -> Vec<u32> {
+    REDUCE_HITS
+        .iter()
+        .map(|s| s.load(Ordering::Relaxed))
+        .collect()
+}
+
+pub fn reset() {
+    for s in STEPS.iter() {
+        s.store(0, Ordering::Relaxed);
+    }
+    for s in REDUCE_HITS.iter() {
+        s.store(0, Ordering::Relaxed);
+    }
+}
